@@ -444,6 +444,14 @@ impl<'ast> Visit<'ast> for WildFinder {
                 let n = self.edits.len();
                 self.edits.push((s, e, format!("_vx{}", n)));
             }
+            // `|()|` -> `|_vxN: ()|`
+            if let syn::Pat::Tuple(t) = inner {
+                if t.elems.is_empty() && !matches!(p, syn::Pat::Type(_)) {
+                    let (s, e) = rng(t.span());
+                    let n = self.edits.len();
+                    self.edits.push((s, e, format!("_vx{}: ()", n)));
+                }
+            }
         }
         syn::visit::visit_expr_closure(self, c);
     }
@@ -657,6 +665,7 @@ struct FragFinder<'a> {
     spec: &'a str,
     src: &'a str,
     loop_ctr: usize,
+    skip: usize, // `kind#N:pattern` selects the N-th match (1-based); skip = N-1 remaining
     found: Option<(usize, usize)>,
 }
 impl<'a> FragFinder<'a> {
@@ -701,7 +710,7 @@ impl<'a, 'ast> Visit<'ast> for FragFinder<'a> {
         }
         if let Some(sub) = self.spec.strip_prefix("ifthen:") {
             let (s, e) = rng(i.cond.span());
-            if self.src[s..e].contains(sub) {
+            if self.src[s..e].contains(sub) && { if self.skip > 0 { self.skip -= 1; false } else { true } } {
                 let (bs, _) = rng(i.then_branch.brace_token.span.open());
                 let (_, be) = rng(i.then_branch.brace_token.span.close());
                 self.found = Some((bs + 1, be - 1));
@@ -716,7 +725,7 @@ impl<'a, 'ast> Visit<'ast> for FragFinder<'a> {
         }
         if let Some(sub) = self.spec.strip_prefix("matcharm:") {
             let (s, e) = rng(a.pat.span());
-            if self.src[s..e].contains(sub) {
+            if self.src[s..e].contains(sub) && { if self.skip > 0 { self.skip -= 1; false } else { true } } {
                 let (bs, be) = rng(a.body.span());
                 self.found = Some((bs, be));
                 return;
@@ -730,7 +739,7 @@ impl<'a, 'ast> Visit<'ast> for FragFinder<'a> {
         }
         if let Some(sub) = self.spec.strip_prefix("closure:") {
             let (s, e) = rng(c.span());
-            if self.src[s..e].contains(sub) {
+            if self.src[s..e].contains(sub) && { if self.skip > 0 { self.skip -= 1; false } else { true } } {
                 let (bs, be) = rng(c.body.span());
                 self.found = Some((bs, be));
                 return;
@@ -843,7 +852,15 @@ fn do_extract(repo: &str, ex: &Extract, probes: bool, probe_ctr: &mut usize) -> 
     if let Some(fr) = ex.kv.get("frag") {
         // tracing statements are removed first so that prefixes in `stmts:` are stable
         let f = parse_fn(&text)?;
-        let mut ff = FragFinder { spec: fr, src: &text, loop_ctr: 0, found: None };
+        // `kind#N:pattern` -> N-th match
+        let (fr_norm, skip) = match fr.split_once(':') {
+            Some((k, rest)) => match k.split_once('#') {
+                Some((k2, n)) => (format!("{}:{}", k2, rest), n.parse::<usize>().unwrap_or(1).saturating_sub(1)),
+                None => (fr.clone(), 0),
+            },
+            None => (fr.clone(), 0),
+        };
+        let mut ff = FragFinder { spec: &fr_norm, src: &text, loop_ctr: 0, skip, found: None };
         ff.visit_block(&f.block);
         let (fs, fe) = ff.found.ok_or(Fail(format!("fragment not found: {file} :: {item} :: {fr}")))?;
         src_start = start + fs;
